@@ -32,7 +32,10 @@ SCOPE = {"quick": "all valid op sequences of length <=5 over the 11-symbol alpha
          "thorough": "all valid op sequences of length <=6 over the 11-symbol alphabet; every tool x fin x take 0..3 on "
                      "every kind of underlying iterator; 150000 random sequences up to length 14"}
 ASSUMPTIONS = [
-    "operations are sequential: no second task is suspended inside a handle while another operation runs",
+    "operations are sequential: no second task is suspended inside a handle while another operation runs — except in the "
+    "oracle-only `conc` family (a close of the handle, or of a handle it was borrowed from, arriving while an anext is "
+    "suspended inside the underlying iterator): there an ACCEPTED close must leave the handle dead, a refused one "
+    "(RuntimeError, as CPython refuses to close a running generator) is not judged",
     "athrow forwarding to the underlying iterator is not among the operations (documented pass-through)",
     "a library tool handed a handle is observed only through what reaches the underlying iterator: the number of "
     "pulls it made is read off the underlying iterator's log and replayed on the machine as `next h`^k (; cancelled "
@@ -536,6 +539,102 @@ def _collect():
     gc.freeze()
 
 
+# ---------------------------------------------------------------------------------------------
+# the `conc` family (oracle only): a close arriving while another task is suspended inside the handle
+
+
+def _step(co, val=None):
+    try:
+        return ("susp", co.send(val))
+    except StopIteration as stop:
+        return ("ret", stop.value)
+    except BaseException as exc:  # noqa: B036
+        return ("exc", exc)
+
+
+def _outcome(st):
+    r = type("R", (), {})()
+    r.value, r.exc = (st[1], None) if st[0] == "ret" else (None, st[1])
+    return _res(r)
+
+
+def _npulls(log):
+    return sum(1 for ev in log if ev in ("pull", "send"))
+
+
+def _observe_conc(case):
+    log = []
+    u = make_u(case["u"], log)
+    handles = [A.borrow(u)]
+    for _ in range(case["depth"] - 1):
+        handles.append(A.borrow(handles[-1]))
+    inner, target = handles[-1], handles[case["level"]]
+    got = []
+    for _ in range(case["pre"]):
+        got.append(_res(drive(inner.__anext__())))
+    flight = inner.__anext__()
+    st = _step(flight)
+    suspended = st[0] == "susp"
+    closer = target.aclose() if case["mode"] == "close" else A.iter(target).aclose()
+    close_out = _res(drive(closer))
+    closed_ok = close_out == ["value", ["n"]]
+    steps = 0
+    while st[0] == "susp" and steps < 50:
+        st = _step(flight, ("r", st[1]))
+        steps += 1
+    flight_out = _outcome(st) if st[0] != "susp" else "stuck"
+    n1 = _npulls(log)
+    post = [_res(drive(target.__anext__())) for _ in range(2)]
+    n2 = _npulls(log)
+    post_inner = _res(drive(inner.__anext__())) if inner is not target and closed_ok else None
+    n3 = _npulls(log)
+    closed_by_handle = "close" in log
+    drain = []
+    for _ in range(len(case["u"]["script"]) + 2):
+        r = _res(drive(u.__anext__()))
+        drain.append(r)
+        if r == "stop" or (isinstance(r, list) and r[0] in ("lib",)):
+            break
+    return {"conc": {"suspended": suspended, "close": close_out, "closed_ok": closed_ok, "flight": flight_out, "pre": got,
+                     "post": post, "post_inner": post_inner, "advanced_after_close": n2 - n1, "advanced_inner": n3 - n2,
+                     "u_closed": closed_by_handle, "drain": drain},
+            "ops": [], "drain": [], "mops": []}
+
+
+def _judge_conc(case, obs):
+    c = obs["conc"]
+    issues = []
+    if c["u_closed"]:
+        issues.append(Issue("oracle", c, "underlying-closed:concurrent-close"))
+    if c["closed_ok"]:
+        # the close was accepted: from now on the handle yields nothing and does not advance the underlying iterator
+        if any(p != "stop" for p in c["post"]) or c["advanced_after_close"]:
+            issues.append(Issue("oracle", c, "closed-handle-still-live:concurrent-close"))
+        if case["level"] < case["depth"] - 1 and c["post_inner"] is not None and (
+                c["post_inner"] != "stop" or c["advanced_inner"]):
+            # a handle borrowed from a closed handle has nothing left to take either
+            issues.append(Issue("oracle", c, "closed-handle-still-live:concurrent-close:via-reborrow"))
+    ids = [r[1] for r in c["pre"] + [c["flight"]] + c["post"] + ([c["post_inner"]] if c["post_inner"] else []) + c["drain"]
+           if isinstance(r, list) and r[0] == "item"]
+    want = [e[1] for e in case["u"]["script"] if e[0] == "i"]
+    if ids != want and not any(e[0] == "f" for e in case["u"]["script"]):
+        issues.append(Issue("oracle", dict(c, delivered=ids, script=want), "items-lost-or-duplicated:concurrent-close"))
+    return issues
+
+
+def _conc_cases():
+    for kind in U_KINDS:
+        if not kind.get("susp"):
+            continue
+        for n in (1, 3):
+            for depth in (1, 2):
+                for level in range(depth):
+                    for mode in ("close", "citer"):
+                        for pre in (0, 1):
+                            yield {"family": "conc", "u": mk_u(kind, n), "ops": [], "depth": depth, "level": level,
+                                   "mode": mode, "pre": pre}
+
+
 _CACHE = {}
 
 
@@ -544,12 +643,16 @@ def _key_of(case):
 
 
 def observe(case):
+    if case.get("family") == "conc":
+        return _observe_conc(case)
     obs = Run(case).run()
     _CACHE[_key_of(case)] = (case, obs["mops"])
     return obs
 
 
 def model_request(case):
+    if case.get("family") == "conc":
+        return None
     hit = _CACHE.get(_key_of(case))
     if hit is None or hit[0] is not case:
         observe(case)           # deterministic: the same derived machine operations as in the worker
@@ -681,6 +784,8 @@ def oracle(case, obs):
 
 
 def judge(case, obs, model):
+    if case.get("family") == "conc":
+        return _judge_conc(case, obs)
     issues = oracle(case, obs)
     issues += ref_issues(case, obs)
     if model is not None:
@@ -807,6 +912,10 @@ def ref_issues(case, obs):
 
 
 def features(case, obs):
+    if case.get("family") == "conc":
+        c = obs["conc"]
+        return ["family=conc", "conc-close-" + ("accepted" if c["closed_ok"] else "refused"),
+                "conc-in-flight" if c["suspended"] else "conc-not-suspended"]
     f = ["u=" + case["u"]["kind"], "ops=%d" % len(case["ops"])]
     if case["u"]["kind"] == "obj":
         f.append("caps=%s%s%s" % ("c" if case["u"].get("close") else "-", "s" if case["u"].get("send") else "-",
@@ -833,6 +942,8 @@ def features(case, obs):
 
 
 def nontrivial(case, obs):
+    if case.get("family") == "conc":
+        return obs["conc"]["suspended"]
     through = any(op[0] in ("next", "send", "tool") and op[1] is not None and any(
         isinstance(ev, list) and ev[0] == "item" for ev in rec["seg"]) for op, rec in zip(case["ops"], obs["ops"]))
     closes = any(op[0] in ("close", "citer", "tool", "exit") for op in case["ops"])
@@ -940,6 +1051,7 @@ def random_seq(rng, nops, cancel_ok, scopes=False, has_close=True):
 
 def cases(tier, rng):
     quick = tier == "quick"
+    yield from _conc_cases()
     small_tools = [{"name": "islice", "take": 1, "fin": "close", "p": {"n": 2}}]
     n = 0
     for seq in exhaustive(5 if quick else 6, small_tools):
@@ -971,7 +1083,10 @@ def cases(tier, rng):
 
 
 def search_cases(broken, rng):
+    yield from _conc_cases()
     for case in broken:
+        if case.get("family") == "conc":
+            continue
         for kind in U_KINDS:
             u = dict(kind, script=case["u"]["script"])
             yield {"u": u, "ops": [op for op in case["ops"] if op[0] != "ncancel" or kind.get("susp")]}
